@@ -111,8 +111,12 @@ def surface_normal_from_cylindrical_derivatives(fp, ft, r, t):
     """
     cost = np.cos(t)
     sint = np.sin(t)
-    x = fp * cost - 1/r * ft * sint
-    y = fp * sint + 1/r * ft * cost
+    # the azimuthal term ft/r vanishes on the axis; evaluate it as 0 there instead of 0/0
+    with np.errstate(divide='ignore', invalid='ignore'):
+        ft_by_r = np.where(r == 0, 0., ft / r)
+
+    x = fp * cost - ft_by_r * sint
+    y = fp * sint + ft_by_r * cost
     return x, y
 
 
